@@ -1278,14 +1278,14 @@ func handleAction(c *webClient, a any) error {
 		id := c.Id()
 		user := c.Username()
 		d := c.Data()
-		clients := g.GetClients(nil)
-		go func(clients []group.Client) {
-			for _, cc := range clients {
-				cc.PushClient(
-					g.Name(), "change", id, user, perms, d,
-				)
-			}
-		}(clients)
+		// PushClient merely enqueues, so this cannot block.  Pushing
+		// from our own goroutine keeps successive changes, and the
+		// final delete, in order.
+		for _, cc := range g.GetClients(nil) {
+			cc.PushClient(
+				g.Name(), "change", id, user, perms, d,
+			)
+		}
 	case kickAction:
 		return group.KickError{
 			a.id, a.username, a.message,
@@ -1983,14 +1983,12 @@ func handleClientMessage(c *webClient, m clientMessage) error {
 			user := c.Username()
 			perms := c.Permissions()
 			data = c.Data()
-			go func(clients []group.Client) {
-				for _, cc := range clients {
-					cc.PushClient(
-						g.Name(), "change",
-						id, user, perms, data,
-					)
-				}
-			}(g.GetClients(nil))
+			for _, cc := range g.GetClients(nil) {
+				cc.PushClient(
+					g.Name(), "change",
+					id, user, perms, data,
+				)
+			}
 		default:
 			return group.UserError("unknown user action")
 		}
